@@ -41,7 +41,7 @@ UVL_KEYWORDS = ["features", "constraints", "mandatory", "optional", "or", "alter
 OPERATOR_WORDS = ["AND", "OR", "NOT", "XOR", "IMPLIES", "REQUIRES", "EXCLUDES", "EQUIVALENCE",
                   "EQUALS", "LOWER", "GREATER", "ADD", "SUB", "MUL", "DIV", "SUM", "AVG", "LEN",
                   "x AND y", "a OR b", "NOT z", "p XOR q", "n IMPLIES m"]
-ODD_UVL = ["a // b", "see // the manual", "/* x */", "x /* y", "*/", "http://h/a//b", "1a", "42", "_x", "_", "a#b", "a§b", "a'b", "a;b", "a b", "  ", "a-b", "a+b",
+ODD_UVL = ["a--b", "-1", "+1", "007", "1e3", "0x10", "1_000", "-", "+", "½", "%s", "{0}", "$1", "a // b", "see // the manual", "/* x */", "x /* y", "*/", "http://h/a//b", "1a", "42", "_x", "_", "a#b", "a§b", "a'b", "a;b", "a b", "  ", "a-b", "a+b",
            "a&b", "a|b", "(x)", "[y]", "{z}", "a,b", "a:b", "a=b", "<a>", "a/b", "a\\b", "a*b",
            "äöü", "ñandú", "日本語", "Δx", "\U0001f600", "xé",
            "!a", "a!", "a?", "100%", "a$", "a@b", "~t", "^u", "`v`"]
@@ -95,7 +95,7 @@ def line_like_names(forbidden):
 
 def unicode_names(extra_pool=()):
     """Arbitrary Unicode text minus surrogates/control chars, not starting with an apostrophe."""
-    pool = ["a b", 'say "hi"', "back\\slash", "tab", "\U0001f600", "日本", "x.y", "a&b<c>",
+    pool = ["a--b", "-1", "+1", "007", "1e3", "0x10", "-", "+", "%s", "{0}", "$1", "\\1", "a b", 'say "hi"', "back\\slash", "tab", "\U0001f600", "日本", "x.y", "a&b<c>",
             "'", "a'", "été", "AND", "x OR y", " lead", "trail ", "a/b", "{}", "[]", "()", "\"", "\"q\"",
             "a b", " x"[1:], "1", "_", "-"] + list(extra_pool)
     free = st.text(alphabet=st.characters(blacklist_categories=("Cs", "Cc")), min_size=1,
@@ -119,7 +119,8 @@ def unicode_names_nodot(extra_pool=()):
 
 def xml_names():
     """Unicode text legal in XML 1.0 attribute values and text (no control chars; U+FFFE/FFFF out)."""
-    pool = ["a&b", "a<b", "a>b", 'a"b', "a'b", "a b", "é", "日本", "&amp;", "<x/>", "]]>", "x  y"]
+    pool = ["a&b", "a<b", "a>b", 'a"b', "a'b", "a b", "é", "日本", "&amp;", "<x/>", "]]>", "x  y",
+            "a--b", "--", "-->", "<!--", "<!-- c -->", "gtk--3", "<![CDATA[x]]>", "<?pi?>", "&#65;", "&lt;", "%s", "{0}", "$1", "\\1"]
     free = st.text(alphabet=st.characters(blacklist_categories=("Cs", "Cc", "Cn"),
                                           blacklist_characters="\ufffe\uffff\u2028\u2029\x85"),
                    min_size=1, max_size=8).map(_no_lead_apostrophe)
@@ -593,7 +594,7 @@ ANY = Profile(ident_names(), single=("mandatory", "optional", "card1"),
 def plain_floats():
     """Floats built from a decimal string with <= 6 fraction digits (repr has no exponent)."""
     return st.builds(lambda sign, i, frac: {"$float": f"{sign}{i}.{frac}"},
-                     st.sampled_from(["", "-"]), st.integers(0, 99999),
+                     st.sampled_from(["", "-"]), st.one_of(st.integers(0, 2), st.integers(0, 99999)),
                      st.text(alphabet=string.digits, min_size=1, max_size=6)).map(_norm_float)
 
 
@@ -832,7 +833,7 @@ def clafer_sanitize(s):
 
 
 def clafer_names():
-    pool = ["a b", "x-y", "my feat", "AND", "OR", "NOT", "XOR", "x OR y", "1st", "é", "a+b", "q?", "p:q", "not", "xor", "or"]
+    pool = ["-1", "+1", "007", "1e3", "0x10", "-", "+", "a--b", "%s", "{0}", "a b", "x-y", "my feat", "AND", "OR", "NOT", "XOR", "x OR y", "1st", "é", "a+b", "q?", "p:q", "not", "xor", "or"]
     free = st.text(alphabet=st.sampled_from(string.ascii_letters + string.digits + " _-+*/,;!#%&|@^~<>="), min_size=1,
                    max_size=6).map(lambda s: s.strip() or "z")
     reserved = CLAFER_RESERVED
